@@ -4,8 +4,9 @@ from propslib import comp_scope
 PROP = dict(
     extract=[],
     lean_targets=["Chewing.Props.C09"],
-    runs=[dict(bin="dict", timeout=1200, timeout_thorough=3000)],
-    scope=comp_scope("dict"),
+    runs=[dict(bin="dict", timeout=1200, timeout_thorough=3000),
+          dict(bin="dictsql", features=["sqlite"], timeout=1200, timeout_thorough=3000)],
+    scope=comp_scope("dict", "dictsql"),
     level="proof",
     exhaustive=False,
     rule="one evaluation = one step of a random operation history (<= 30 ops; add/update/remove/flush/reopen/close+open; "
@@ -20,7 +21,10 @@ PROP = dict(
         "phrases under one key have the same number of characters (as many as the key has syllables), so that the leaf "
         "comparator of TrieBuilder::write is a total preorder (only the order inside a leaf depends on it, no theorem does)",
         "known findings F10 (UpdatePersisted) and F36 (FuzzyOverTombstoneOrPending) are excluded by exact decidable classes",
-        "SQLite user dictionary (feature `sqlite`): not covered",
+        "SQLite user dictionary: relational reading of its eight SQL statements (INSERT OR REPLACE, LEFT JOIN, ORDER BY with "
+        "NULLs first and BINARY collation, rowid = largest id + 1) is trusted; its specification SMap differs from MapSpec by "
+        "design of the back end (value = (freq, Option(user_freq, time)), reported frequency = max, add replaces instead of "
+        "rejecting, update of a learned phrase keeps its time, the lookup strategy is ignored); v1 migration not modelled",
     ],
 )
 
@@ -32,9 +36,11 @@ MANIFEST = dict(
          "classes UpdatePersisted / FuzzyOverTombstoneOrPending of a file-backed one (refutations proved with the concrete "
          "witnesses); the set of phrases returned is right in every state; removed stays absent, re-add/update visible again; "
          "Layered = union, one entry per phrase, highest frequency, first-appearance order; first n = prefix for TrieBuf, "
-         "Layered and Trie. Tie: correspondence on random histories (model replays each history) + reference-map oracle.",
+         "Layered, Trie and SQLite. SQLite (relational model of the two tables): refinement and exact answers in every state, "
+         "no exclusion. Tie: correspondence on random histories (model replays each history) + reference-map oracle.",
     note="Two fix: commits in the repository (F09 tombstone lifted on add/update, F11 Trie first-n truncation); F10, F36 and "
          "MaxCodePointPhrase are known findings. Trusted: Lean kernel (propext, Classical.choice, Quot.sound), the harness, "
-         "the compiled model driver. Not covered: SQLite back end, concurrent writer schedules (C10), byte format (C11).",
+         "the compiled model driver, the relational reading of SQL. Not covered: SQLite v1 migration, concurrent writer "
+         "schedules (C10), byte format (C11).",
     technique="Lean 4 proof (refinement by invariant + induction over histories, permutation/pairwise reasoning on lists) over a hand-written executable model; sampled model/implementation correspondence with a reference-map oracle",
 )
